@@ -154,54 +154,68 @@ func readContractLines(file string) ([]rawLine, error) {
 	}
 	tmpls := map[string]*tmpl{}
 	var out []rawLine
-	for i := 0; i < len(lines); i++ {
-		t := strings.TrimSpace(lines[i].text)
-		if strings.HasPrefix(t, "template ") {
-			m := regexp.MustCompile(`^template\s+(\w+)\((.*)\)$`).FindStringSubmatch(t)
-			if m == nil {
-				return nil, fmt.Errorf("%s:%d: bad template header", file, lines[i].line)
-			}
-			tp := &tmpl{}
-			for _, p := range strings.Split(m[2], ",") {
-				tp.params = append(tp.params, strings.TrimSpace(p))
-			}
-			i++
-			for i < len(lines) && strings.TrimSpace(lines[i].text) != "end" {
-				tp.body = append(tp.body, lines[i])
+	var expand func(lines []rawLine, depth int) error
+	expand = func(lines []rawLine, depth int) error {
+		if depth > 8 {
+			return fmt.Errorf("%s: template expansion too deep", file)
+		}
+		for i := 0; i < len(lines); i++ {
+			t := strings.TrimSpace(lines[i].text)
+			if strings.HasPrefix(t, "template ") {
+				m := regexp.MustCompile(`^template\s+(\w+)\((.*)\)$`).FindStringSubmatch(t)
+				if m == nil {
+					return fmt.Errorf("%s:%d: bad template header", file, lines[i].line)
+				}
+				tp := &tmpl{}
+				for _, p := range strings.Split(m[2], ",") {
+					tp.params = append(tp.params, strings.TrimSpace(p))
+				}
 				i++
+				for i < len(lines) && strings.TrimSpace(lines[i].text) != "end" {
+					tp.body = append(tp.body, lines[i])
+					i++
+				}
+				tmpls[m[1]] = tp
+				continue
 			}
-			tmpls[m[1]] = tp
-			continue
+			if strings.HasPrefix(t, "apply ") {
+				m := regexp.MustCompile(`^apply\s+(\w+)\((.*)\)$`).FindStringSubmatch(t)
+				if m == nil {
+					return fmt.Errorf("%s:%d: bad apply", file, lines[i].line)
+				}
+				tp := tmpls[m[1]]
+				if tp == nil {
+					return fmt.Errorf("%s:%d: unknown template %s", file, lines[i].line, m[1])
+				}
+				args := splitTopLevel(m[2])
+				if len(args) != len(tp.params) {
+					return fmt.Errorf("%s:%d: template %s expects %d args", file, lines[i].line, m[1], len(tp.params))
+				}
+				sub := map[string]string{}
+				for j, p := range tp.params {
+					sub["$"+p] = strings.TrimSpace(args[j])
+				}
+				var body []rawLine
+				for _, bl := range tp.body {
+					txt := tmplArg.ReplaceAllStringFunc(bl.text, func(s string) string {
+						if v, ok := sub[s]; ok {
+							return v
+						}
+						return s
+					})
+					body = append(body, rawLine{txt, lines[i].line})
+				}
+				if err := expand(body, depth+1); err != nil {
+					return err
+				}
+				continue
+			}
+			out = append(out, lines[i])
 		}
-		if strings.HasPrefix(t, "apply ") {
-			m := regexp.MustCompile(`^apply\s+(\w+)\((.*)\)$`).FindStringSubmatch(t)
-			if m == nil {
-				return nil, fmt.Errorf("%s:%d: bad apply", file, lines[i].line)
-			}
-			tp := tmpls[m[1]]
-			if tp == nil {
-				return nil, fmt.Errorf("%s:%d: unknown template %s", file, lines[i].line, m[1])
-			}
-			args := splitTopLevel(m[2])
-			if len(args) != len(tp.params) {
-				return nil, fmt.Errorf("%s:%d: template %s expects %d args", file, lines[i].line, m[1], len(tp.params))
-			}
-			sub := map[string]string{}
-			for j, p := range tp.params {
-				sub["$"+p] = strings.TrimSpace(args[j])
-			}
-			for _, bl := range tp.body {
-				txt := tmplArg.ReplaceAllStringFunc(bl.text, func(s string) string {
-					if v, ok := sub[s]; ok {
-						return v
-					}
-					return s
-				})
-				out = append(out, rawLine{txt, lines[i].line})
-			}
-			continue
-		}
-		out = append(out, lines[i])
+		return nil
+	}
+	if err := expand(lines, 0); err != nil {
+		return nil, err
 	}
 	return out, nil
 }
